@@ -55,7 +55,10 @@ type tcase struct {
 	// (the peer has gone, a write deadline expired): the close was requested all
 	// the same and is final
 	closeWriteFails bool
-	steps           [][]*action // actions of one step run concurrently; steps run one after the other
+	// the session runs over a layer a negotiation step installed (a plain
+	// io.ReadWriter) on top of the deadline-capable transport
+	layered bool
+	steps   [][]*action // actions of one step run concurrently; steps run one after the other
 }
 
 var entries = []string{"Send", "SendElement", "Encode", "EncodeElement", "TokenWriter", "SendIQ", "SendIQElement", "EncodeIQ", "SendMessage", "EncodeMessageElement", "SendPresence", "SendPresenceElement"}
@@ -81,7 +84,9 @@ func (c *cancelReader) Token() (xml.Token, error) {
 		c.done = true
 		n := c.conn.WriteDeadlineCalls()
 		c.cancel()
-		for i := 0; i < 400 && c.conn.WriteDeadlineCalls() < n+2; i++ {
+		// (bounded generously: on a loaded machine the watcher may run late, and
+		// a write it interrupts after all would poison the encoder by design)
+		for i := 0; i < 40000 && c.conn.WriteDeadlineCalls() < n+2; i++ {
 			time.Sleep(50 * time.Microsecond)
 		}
 	}
@@ -91,6 +96,7 @@ func (c *cancelReader) Token() (xml.Token, error) {
 func genCase(t *rapid.T) tcase {
 	tc := tcase{s2s: rapid.Bool().Draw(t, "s2s"), serve: rapid.IntRange(0, 3).Draw(t, "serve") > 0}
 	tc.closeWriteFails = rapid.IntRange(0, 5).Draw(t, "closeWriteFails") == 0
+	tc.layered = rapid.IntRange(0, 3).Draw(t, "layered") == 0
 	idx := 0
 	ns := rapid.IntRange(1, 6).Draw(t, "nsteps")
 	for s := 0; s < ns; s++ {
@@ -132,7 +138,7 @@ func genCase(t *rapid.T) tcase {
 
 func (tc tcase) String() string {
 	var sb strings.Builder
-	fmt.Fprintf(&sb, "s2s=%v serve=%v write-of-the-closing-tag-fails=%v steps:", tc.s2s, tc.serve, tc.closeWriteFails)
+	fmt.Fprintf(&sb, "s2s=%v serve=%v write-of-the-closing-tag-fails=%v transport-layered-by-a-negotiation-step=%v steps:", tc.s2s, tc.serve, tc.closeWriteFails, tc.layered)
 	for i, st := range tc.steps {
 		fmt.Fprintf(&sb, "\n  step %d (concurrently):", i)
 		for _, a := range st {
@@ -285,7 +291,7 @@ func check(t interface {
 		}
 		ev.Failf(t, "%s\nresults:%s\n%s%s", tc.String(), tc.results(), fmt.Sprintf(format, args...), out)
 	}
-	opts := wire.SessionOpts{}
+	opts := wire.SessionOpts{Layered: tc.layered}
 	if tc.s2s {
 		opts.State |= xmpp.S2S
 	}
@@ -671,6 +677,9 @@ func classify(tc tcase) (bool, []string) {
 	}
 	if tc.serve {
 		classes = append(classes, "served")
+	}
+	if tc.layered {
+		classes = append(classes, "layered-transport")
 	}
 	if concClose {
 		classes = append(classes, "close-concurrent-with-something")
